@@ -81,7 +81,8 @@ def noncanonical_legacy_bytes(fail):
 
 def own_line_comment_at_decision_point(fail):
     """F21"""
-    return fail.get("kind") in ("no_final_newline", "statement_not_on_own_line") and fail.get("decision_point_comment") is True
+    t = _text(fail)
+    return fail.get("kind") in ("no_final_newline", "statement_not_on_own_line", "eof_line", "lines_not_covering") and re.search(r"\bclass\s*[\r\n]+\s*(\{[^}]*\}|\(\*.*?\*\)|//[^\n]*)\s*[\r\n]+\s*;", t, re.S) is not None
 
 
 def wider_more_lines_in_overflow_regime(fail):
@@ -104,7 +105,26 @@ def mlstring_width_dependence(fail):
     return fail.get("kind") == "width_is_style_switch" and "'''" in _text(fail)
 
 
-DETECTORS = {f.__name__: f for f in [wider_more_lines_in_overflow_regime, wider_more_lines_cheaper_break_kind, mlstring_width_dependence,
+def lone_cr_after_line_comment(fail):
+    """F28: `//` comment terminated by a lone CR; the following comment is typed inline"""
+    return fail.get("kind") in ("plan_not_canonical", "indent_not_unit_multiple", "layout_violates_invariant") and re.search(r"//[^\r\n]*\r(?!\n)", _text(fail)) is not None
+
+
+def witness_inputs(prop):
+    """known findings of this property that carry a concrete input witness: (id, text, cfg or None, cursors or None, witness dict)"""
+    out = []
+    for k in load():
+        if k.get("status") != "known":
+            continue
+        if prop not in k.get("properties", [k.get("property")]):
+            continue
+        w = k.get("witness") or {}
+        if "input" in w:
+            out.append((k["id"], w["input"], w.get("cfg"), w.get("cursors"), w))
+    return out
+
+
+DETECTORS = {f.__name__: f for f in [lone_cr_after_line_comment, wider_more_lines_in_overflow_regime, wider_more_lines_cheaper_break_kind, mlstring_width_dependence,
     cr_after_line_comment_in_region, literal_then_gap, mlstring_in_child_line_reflow,
     trailing_exotic_blank_in_line_comment, unterminated_literal_trailing_blank, continuation_saturates,
     nesting_depth, cursor_mid_char_changed_token, cursor_u16_truncation, mlstring_last_terminator_lone_cr,
